@@ -35,7 +35,7 @@ SetToSortedSeq(S) == IF S = {} THEN <<>> ELSE LET x == CHOOSE x \in S : TRUE IN 
 -----------------------------------------------------------------------------
 (* Calls: uniform records, as written by the harness *)
 
-Call(op, g, n, ok, a, b, s) == [op |-> op, g |-> g, n |-> n, ok |-> ok, a |-> a, b |-> b, s |-> s]
+Call(op, g, n, ok, a, b, s) == [op |-> op, g |-> g, n |-> n, ok |-> ok, a |-> a, b |-> b, s |-> s, r |-> <<>>]
 
 Failing(F, op, t) == \E f \in F : f.op = op /\ (f.t = t \/ f.t = "all")
 
